@@ -227,7 +227,7 @@ def run(R, tier):
 
     def m_parse_partial_radix(eng, st, fr, t, name, rname, args):
         b_ = M._bytes_of(eng, st, args[0])
-        g = tuple(t["callee"].get("gargs") or ())
+        g = eng.concrete_gargs(st, t["callee"])
         if b_ is None or len(g) < 2 or not str(g[1]).isdigit():
             return NotImplemented
         radix = (int(g[1]) >> 104) & 0xFF
@@ -423,7 +423,7 @@ def run(R, tier):
 
     # ---- R04.6 radix table (shared with C09/R09.8) --------------------------------------------------------------------------------
     rb = u.body(TK + "read_nondecimal_data")
-    engl = fdai.Engine(P, u, inline=lambda n, r: False, models={})
+    engl = fdai.Engine(P, u, inline=D.inline_inherent(("scpi::parser::tokenizer::",), exclude=(TK + "skip_ws_to_separator",)), models={})
     reader = {}
     for letter in b"HhQqBbXx19":
         res = engl.run(rb, [RefV(Cell(TOP, "tok"), (), True), K(letter)])
